@@ -68,7 +68,7 @@ else:
         seeds = [s for s in seeds if s in args or s.split("-")[0] in args]
 man = json.load(open("MANIFEST.json"))
 claimed = [c["property_id"] for c in man["checks"]]
-SCR = "/tmp/hxsweep-benign" if BENIGN else "/tmp/hxsweep"
+SCR = ("/tmp/hxsweep-benign" if BENIGN else "/tmp/hxsweep") + "-%d" % os.getpid()  # one scratch root per invocation: concurrent sweeps must not remove each other's copies
 shutil.rmtree(SCR, ignore_errors=True)
 # the checks run from a snapshot of /verif, so that /verif can be edited while the sweep runs
 SNAP = os.path.join(SCR, "verif")
@@ -138,7 +138,14 @@ def worker(i):
                         hits["C10/thorough"] = [l.strip()[:240] for l in out.stdout.splitlines() if l.strip().startswith("violated")][:12] or [out.stderr[-200:]]
                 with lock:
                     res[s] = {"false_alarms": hits}
-                    json.dump({k: res[k] for k in sorted(res)}, open(rp, "w"), indent=1)
+                    try:
+                        disk = json.load(open(rp))
+                    except (OSError, ValueError):
+                        disk = {}
+                    disk[s] = res[s]
+                    if "_clean_tree" in res:
+                        disk["_clean_tree"] = res["_clean_tree"]
+                    json.dump({k: disk[k] for k in sorted(disk)}, open(rp, "w"), indent=1)
                     print("%-30s %s" % (s, "silent" if not hits else "FALSE ALARM: " + "; ".join("%s(%s)" % (k, (v[0] if v else "")[:120]) for k, v in hits.items())), flush=True)
                 continue
             mp = os.path.join(V, "seeded", s, "meta.json")
@@ -165,5 +172,12 @@ for t in ths:
     t.start()
 for t in ths:
     t.join()
-json.dump({k: res[k] for k in sorted(res)}, open(rp, "w"), indent=1)
+try:
+    disk = json.load(open(rp)) if (args or OWN or TARGETED) else {}
+except (OSError, ValueError):
+    disk = {}
+for k in list(seeds) + ["_clean_tree"]:
+    if k in res:
+        disk[k] = res[k]
+json.dump({k: disk[k] for k in sorted(disk)}, open(rp, "w"), indent=1)
 shutil.rmtree(SCR, ignore_errors=True)
